@@ -80,7 +80,7 @@ def _summary(out):
         C.log("== %s: %d" % (k, len(vs)))
         seen = set()
         for v in vs:
-            s = (v.get("spelling_text"), v.get("document"))
+            s = v.get("spelling_text")
             if s in seen:
                 continue
             seen.add(s)
